@@ -2,7 +2,9 @@
    closed by [exact]; pinned again in coq/audit/C0x.v.  What each one says in words
    is in the comment above it; what is NOT proved is said there too. *)
 From VP Require Import Base.Tactics Zdd.Model Zdd.ProofsBase Zdd.ProofsPwo Zdd.ProofsArena
-  Sase.Model Sase.ProofsBounds Sase.ProofsSound Sase.ProofsSoundEngine Sase.ProofsCompile Sase.ProofsPattern Sase.ProofsKleene Sase.ProofsKeyed.
+  Sase.Model Sase.ProofsBounds Sase.ProofsSound Sase.ProofsSoundEngine Sase.ProofsCompile Sase.ProofsPattern Sase.ProofsKleene Sase.ProofsKeyed
+  Sase.Ref Sase.ProofsExactRef Sase.ProofsExactLoop Sase.ProofsExactRun Sase.ProofsExact Sase.ProofsExactText.
+From Coq Require Import Permutation.
 
 (* ------------------------------------------------------------------ C01 *)
 (* For every pattern (any number of steps, any `all` flags, any filters), every list of
@@ -123,17 +125,59 @@ Example C05_bound_reached :
 Proof. eexists. split; [vm_compute; reflexivity | cbn; lia]. Qed.
 
 (* ------------------------------------------------------------------ C02 *)
-(* What is proved for C02 is its soundness half: every emitted match is a derivation (see C01),
-   for every pattern, in particular those without `all`.  NOT proved: exactness (one match per
-   start event, the earliest continuation) -- that half rests on the differential check against
-   the executable reference [Sase.Ref.ref_matches] (mirrored in Python) on every run.
-   Known finding, formal side: on the witness below the reference of the property text reports
-   the match [0;1] and the engine reports nothing. *)
+(* Soundness half: every emitted match is a derivation (see C01), for every pattern, in
+   particular those without `all`.  The exactness half follows below.
+   Known finding, formal side: on the witness of Sase/Ref.v the reference of the property text
+   reports the match [0;1] and the engine reports nothing. *)
 Theorem C02_soundness_partial :
   forall steps negs part max_runs st lim evs out,
     run_collect (mkCfg (compile steps) negs part max_runs st lim) engine0 evs = Some out ->
     Forall (Forall (genuine (compile steps) negs evs)) out.
 Proof. exact C01_matches_have_derivations_partial. Qed.
+
+(* Exactness.  [ref_e] follows every event that can begin the pattern separately: at every
+   step it takes the earliest later event of its partition satisfying that step under the
+   captures so far, gives up when an event satisfying a .not clause (under the captures so
+   far) arrives first, and yields one match when the last step is taken (Sase/ProofsExactRef.v).
+   For every sequence pattern of two or more steps without `all`, every list of .not clauses,
+   optional partitioning, every backpressure strategy and every stream no longer than the run
+   limit (so that no run is ever dropped or evicted): the engine does not panic and the
+   matches it emits over the stream are, up to order, exactly those of [ref_e]. *)
+Theorem C02_engine_is_per_start_greedy :
+  forall s0 rest0 negs part max_runs st lim evs,
+    Forall (fun s => st_all s = false) (s0 :: rest0) -> rest0 <> [] -> length evs <= max_runs ->
+    exists l, engine_stacks (mkCfg (compile (s0 :: rest0)) negs part max_runs st lim) engine0 evs = Some l /\
+              Permutation l (ref_e negs part s0 rest0 evs).
+Proof.
+  intros s0 rest0 negs part mx st lim evs NoAll Two L.
+  exact (engine_exact s0 rest0 NoAll Two negs part mx st lim evs L).
+Qed.
+
+(* Against the reference of the property text ([Sase.Ref.ref_matches], where the completing
+   event itself does not count as arriving "before that completion"): outside the known class
+   [known_c02] -- some attempt meets an event that satisfies a .not clause and would at the
+   same time complete it -- the engine emits, up to order, exactly the reference's matches. *)
+Theorem C02_exact_outside_known_class :
+  forall s0 rest0 negs part max_runs st lim evs,
+    Forall (fun s => st_all s = false) (s0 :: rest0) -> rest0 <> [] -> length evs <= max_runs ->
+    known_c02 negs part s0 rest0 evs = false ->
+    exists l, engine_stacks (mkCfg (compile (s0 :: rest0)) negs part max_runs st lim) engine0 evs = Some l /\
+              Permutation l (ref_matches negs part (s0 :: rest0) evs).
+Proof.
+  intros s0 rest0 negs part mx st lim evs NoAll Two L K.
+  rewrite (ref_text_is_ref_e negs part s0 rest0 Two evs K).
+  exact (engine_exact s0 rest0 NoAll Two negs part mx st lim evs L).
+Qed.
+
+(* the refuted witness of Sase/Ref.v lies in the class; a stream outside it with a match *)
+Example C02_known_class_contains_witness :
+  known_c02 kf_negs None (mkStep 1 None (Some 0%N) false) [mkStep 0 None None false] kf_events = true.
+Proof. vm_compute. reflexivity. Qed.
+Example C02_exact_not_vacuous :
+  let evs := [mkEv 0 1 [(3%N, VStr 1)]; mkEv 5 2 []; mkEv 1 0 [(3%N, VStr 1)]] in
+  known_c02 kf_negs None (mkStep 1 None (Some 0%N) false) [mkStep 0 None None false] evs = false /\
+  ref_matches kf_negs None kf_steps evs = [[0; 1]%N].
+Proof. split; vm_compute; reflexivity. Qed.
 
 (* ------------------------------------------------ C01 partition clause / C04 *)
 (* With partition_by f: for every pattern, configuration and stream, every match emitted while
